@@ -319,7 +319,7 @@ class MultiDict(TypeConversionDict[K, V]):
         :param default: The default value to be returned if the key is not
                         in the dict.  If not further specified it's `None`.
         """
-        if key not in self:
+        if key not in self or not dict.__getitem__(self, key):  # type: ignore[index]
             self[key] = default  # type: ignore[assignment]
 
         return self[key]
